@@ -2,12 +2,13 @@
 (from_disk.Directory.from_disk, Content.from_file, mode_to_perms, cli)."""
 import hashlib
 import os
+import re
 import subprocess
 import tempfile
 
 from .core import exc_class, hx
-from .fstree import (collect_ids, count_nodes, enc_tree, gen_spelling, gen_tree, has_kind, on_disk, shrink_tree,
-                     shuffled_scandir, spelled_root, subdirs)
+from .fstree import (CHAIN_FILE, CHAIN_NAME, collect_ids, count_nodes, enc_chain, enc_tree, gen_spelling, gen_tree, has_kind,
+                     impl_chain, on_disk, ref_chain, shrink_tree, shuffled_scandir, spelled_root, subdirs)
 
 ID = "C06"
 PROPS = "Props/C06.v"
@@ -16,7 +17,8 @@ OBLIGATION = "Directory.from_disk"
 CASE_TIMEOUT = 60
 SHRINK_BUDGET = 25
 THEOREMS = ["C06_is_git_tree", "C06_walk_refines", "C06_walk_refines_paths", "C06_walk_total", "C06_listing_order_free",
-            "C06_trailing_slash", "C06_trailing_slash_root", "C06_norm_path_only_strips_slashes", "C06_symlink_never_followed", "C06_special_is_empty_file",
+            "C06_trailing_slash", "C06_trailing_slash_root", "C06_norm_path_only_strips_slashes",
+            "C06_model_has_no_depth_limit", "C06_chain_id", "C06_symlink_never_followed", "C06_special_is_empty_file",
             "C06_exec_bit", "C06_perms_table", "C06_empty_ignored_is_git", "C06_satisfiable",
             "C06_iter_total", "C06_iter_refines_recursive", "C06_iter_same_ids", "C06_iter_satisfiable",
             "C06_leaf_ids_are_C01_blob_ids"]
@@ -29,11 +31,21 @@ RULE = ("random file-system trees (depth <= 5, <= 120 nodes) materialised in a t
         "ancestor, the root itself a symbolic link (also followed by '/', '/.'), '<dir>/<link>/../<name>' where the link "
         "points elsewhere so that the lexically collapsed path designates nothing or a DIFFERENT tree (decoy), relative "
         "versions of these, an absolute path whose first component is a symbolic link; the reference is always the tree "
-        "that was materialised (what the OS designates), never a normalised path; "
+        "that was materialised (what the OS designates), never a normalised path; DEEP CHAINS: a small tree at the bottom of "
+        "N nested directories (optionally a file at every k-th level), N in {200, 500, 900} (must agree with an iterative "
+        "bottom-up reference and with the model's root id, also with empty directories ignored, shuffled listing, a "
+        "spelled root path and the CLI) and N in {1000, 1500} (above the interpreter's recursion limit: open known "
+        "finding tree-deeper-than-recursion-limit, demonstrated), more depths and fan-out at the bottom in the thorough "
+        "tier; built, encoded, hashed and removed iteratively, the recursion limit is never raised around the library; "
         "non-trivial = >=1 sub-directory and >=1 non-regular or executable entry")
 TRUSTED = ["the OS layer (scandir, lstat, readlink, mkfifo, chmod) is exercised, not modelled: the model receives the tree as data",
            "lib/Sha1.v as an instance of the hash oracle"]
 ASSUMPTIONS = ["names within a directory are distinct, non-empty, free of '/' and NUL (what a POSIX directory can hold)",
+               "depth: the model and the theorems have no depth limit (C06_model_has_no_depth_limit); the IMPLEMENTATION reads "
+               "trees of depth < the interpreter's recursion limit only (measured: 986 nested directories work, 987 raise "
+               "RecursionError) - open known finding tree-deeper-than-recursion-limit; a RecursionError on a chain of more "
+               "than %d directories is reported as that finding, every other outcome (a wrong id at any depth, a "
+               "RecursionError on a shallower tree, another exception) is a violation" % 940,
                "which directory a path designates (symbolic links, '..', '.', doubled slashes in it) is resolved by the operating "
                "system: the model only strips trailing slashes (C06_norm_path_only_strips_slashes); the spellings of the root "
                "path are exercised by the correspondence check, not modelled",
@@ -61,7 +73,29 @@ def gen(rng, tier):
             if b"lib".hex() not in [n for n, _ in t["c"]]:
                 t["c"].append([b"lib".hex(), lib])
         cases.append({"tree": t, "seed": rng.randrange(10**6), "slashes": rng.choice([0, 0, 1, 3]), "spelling": gen_spelling(rng)})
+    # deep chains: below the recursion limit (must pass) and above it (known finding)
+    chains = [(200, 7, "linkup_rel", 1), (500, 0, "real", 0), (900, 250, "real", 0), (1000, 0, "real", 0), (1500, 400, "rootlink", 0)]
+    if tier != "quick":
+        chains += [(rng.randrange(50, 930), rng.choice([0, 3, 50]), gen_spelling(rng), rng.choice([0, 2])) for _ in range(12)]
+        chains += [(1200, 0, "vialink", 0), (1400, 100, "real", 1)]
+    for i, (n_, k_, sp, sl) in enumerate(chains):
+        bottom = small if (tier == "quick" or i % 2 == 0) else _chain_bottom(gen_tree(rng, budget=[20]))
+        cases.insert(6 + i * max(1, len(cases) // (len(chains) + 1)),
+                     {"tree": bottom, "chain": n_, "chain_file": k_, "seed": rng.randrange(10**6), "slashes": sl, "spelling": sp})
     return cases
+
+
+DEPTH_FINDING_FLOOR = 940       # measured on /repo: 986 nested directories are read, 987 raise (default limit, shallow stack)
+FINDING_DEEP = "tree-deeper-than-recursion-limit"
+
+
+def _is_chain(c):
+    return bool(c.get("chain"))
+
+
+def _chain_bottom(t):
+    """the chain helpers follow the entry "d": the bottom tree must not have its own top-level d / f"""
+    return {"t": "D", "c": [[n, ch] for n, ch in t["c"] if bytes.fromhex(n) not in (CHAIN_NAME, CHAIN_FILE)]}
 
 
 def _exec_or_special(t):
@@ -73,6 +107,8 @@ def _exec_or_special(t):
 
 
 def nontrivial(c):
+    if _is_chain(c):
+        return True
     t = c["tree"]
     return bool(subdirs(t)) and _exec_or_special(t)
 
@@ -87,10 +123,44 @@ def classify(c):
     if c["slashes"]:
         ks.append("trailing-slash")
     ks.append("root=" + c.get("spelling", "real"))
+    if _is_chain(c):
+        ks.append("chain-depth=" + ("<=500" if c["chain"] <= 500 else "501-%d" % DEPTH_FINDING_FLOOR if c["chain"] <= DEPTH_FINDING_FLOOR
+                                    else ">%d" % DEPTH_FINDING_FLOOR))
     return ks
 
 
+def _impl_chain(c):
+    """a deep chain: every observation is made iteratively (level by level); the recursion limit is left alone"""
+    from swh.model.from_disk import Directory
+    from swh.model import from_disk as _fd
+    res = {}
+    n = c["chain"]
+    with spelled_root(c["tree"], c.get("spelling", "real"), c) as (spelled, _tmp, root):
+        try:
+            d = Directory.from_disk(path=root)
+            res["chain"] = impl_chain(d, n)
+            res["swhid"] = str(d.swhid())
+            with shuffled_scandir(c["seed"]):
+                d2 = Directory.from_disk(path=spelled + b"/" * c["slashes"])
+            res["shuffled_equal"] = impl_chain(d2, n) == res["chain"]
+            res["root_ignore_empty"] = Directory.from_disk(path=root, path_filter=_fd.ignore_empty_directories).hash.hex()
+        except Exception as e:
+            res["error"] = exc_class(e) + ":" + str(e)[:80]
+            return res
+        if n <= 900:
+            try:
+                from click.testing import CliRunner
+                from swh.model import cli
+                r = CliRunner().invoke(cli.identify, ["--no-filename", os.fsdecode(root) + "/" * c["slashes"]])
+                res["cli"] = r.output.strip() if r.exit_code == 0 else "exit %d %s" % (r.exit_code, exc_class(r.exception) if r.exception else "")
+            except Exception as e:
+                res["cli"] = "error:" + exc_class(e)
+    return res
+
+
 def impl(c):
+    if _is_chain(c):
+        return _impl_chain(c)
     from swh.model.from_disk import Directory
     res = {}
     # root = the plain real path of the materialised tree (reference reads); spelled = the same directory as the case spells it
@@ -135,6 +205,11 @@ def impl(c):
 
 
 def requests(c):
+    if _is_chain(c):
+        t = enc_chain(c)
+        if c["chain"] > DEPTH_FINDING_FLOOR:    # the implementation is expected to give up: the model's root id is all that is used
+            return ["rootid all - id " + t]
+        return ["rootid all - id " + t, "rootid all - rev " + t, "spec " + t, "pruned empty " + t, "rootid empty - id " + t]
     t = enc_tree(c["tree"])
     # the last request goes through the literal stack/queue model (from_disk_iter) with the listing reversed
     return ["ids all - id " + t, "ids all - rev " + t, "spec " + t, "pruned empty " + t, "ids empty - id " + t,
@@ -142,6 +217,15 @@ def requests(c):
 
 
 def model(c, resp):
+    if _is_chain(c):
+        def rid(r):
+            return r[3:] if r.startswith("ok ") else r
+        if len(resp) == 1:
+            return {"rootid": rid(resp[0]), "root_only": True}
+        p = resp[2].split(" ")
+        return {"rootid": rid(resp[0]), "rootid_rev": rid(resp[1]), "node_id": p[1], "git_node_id": p[2], "wf": p[3],
+                "pruned_empty_id": resp[3].split(" ")[1], "root_ignore_empty": rid(resp[4])}
+
     def ids(r):
         if not r.startswith("ok "):
             return r
@@ -156,7 +240,45 @@ def model(c, resp):
     return res
 
 
+def _oracle_chain(c, ires, mres):
+    if "error" in ires:
+        return "from_disk raised %s on a chain of %d nested directories" % (ires["error"], c["chain"])
+    ref = ref_chain(c)
+    if mres.get("root_only"):       # a chain above the floor that the implementation DID read: the reference decides
+        mres = dict(mres, git_node_id=ref["levels"][0], pruned_empty_id=ires["root_ignore_empty"])
+    if ires["chain"] != ref:
+        a, b = ires["chain"]["levels"], ref["levels"]
+        if len(a) != len(b):
+            return "the chain read has %d levels, the tree has %d" % (len(a), len(b))
+        lv = [i for i in range(len(a)) if a[i] != b[i]]
+        return "ids differ from the bottom-up reference at levels %s / in the bottom tree" % lv[-3:]
+    root = ires["chain"]["levels"][0]
+    if root != mres["git_node_id"]:
+        return "root id %s is not the git tree id %s of this tree" % (root, mres["git_node_id"])
+    if not ires["shuffled_equal"]:
+        return "ids of a deep chain depend on listing order, trailing slashes or the spelling of the path (%s)" % c.get("spelling", "real")
+    if ires["root_ignore_empty"] != mres["pruned_empty_id"]:
+        return "with empty directories ignored the root id of a deep chain is not the git tree id of the pruned tree"
+    if ires["swhid"] != "swh:1:dir:" + root:
+        return "swhid() does not carry the root id"
+    if "cli" in ires and ires["cli"] != "swh:1:dir:" + root:
+        return "the command line prints %r, the library computes swh:1:dir:%s" % (ires["cli"], root)
+    return None
+
+
+def finding_key(c, ires, mres, verdict):
+    """open known finding: exactly a chain deeper than the measured threshold whose read ends in RecursionError while the
+    model answers an id; anything else stays a violation"""
+    if (_is_chain(c) and c["chain"] > DEPTH_FINDING_FLOOR and verdict.get("kind") == "property-violation"
+            and str(ires.get("error", "")).startswith("Other(RecursionError)")
+            and isinstance(mres, dict) and re.fullmatch(r"[0-9a-f]{40}", str(mres.get("rootid", "")))):
+        return FINDING_DEEP
+    return None
+
+
 def oracle(c, ires, mres):
+    if _is_chain(c):
+        return _oracle_chain(c, ires, mres)
     if "error" in ires:
         return "from_disk raised " + ires["error"]
     root = ires["ids"]["."]
@@ -178,6 +300,18 @@ def oracle(c, ires, mres):
 
 
 def compare(c, ires, mres):
+    if _is_chain(c):
+        if mres.get("root_only"):
+            return None if mres["rootid"] == ires["chain"]["levels"][0] else "root id of a deep chain differs between model and implementation"
+        if mres["wf"] != "1":
+            return "generated chain is not well-formed for the model (harness bug)"
+        if mres["node_id"] != mres["git_node_id"] or mres["rootid"] != mres["rootid_rev"] or mres["rootid"] != mres["node_id"]:
+            return "MODEL: rootid / node_id / git_node_id of a deep chain disagree (model bug)"
+        if mres["rootid"] != ires["chain"]["levels"][0]:
+            return "root id of a deep chain differs between model and implementation"
+        if mres["root_ignore_empty"] != ires["root_ignore_empty"]:
+            return "root id with ignore_empty_directories differs between model and implementation (deep chain)"
+        return None
     if mres["wf"] != "1":
         return "generated tree is not well-formed for the model (harness bug)"
     if mres["node_id"] != mres["git_node_id"]:
@@ -198,6 +332,11 @@ def compare(c, ires, mres):
 
 
 def shrink(c):
+    if _is_chain(c):
+        yield dict(c, chain=c["chain"] // 2)
+        yield dict(c, chain=c["chain"] - 1)
+        if c.get("chain_file"):
+            yield dict(c, chain_file=0)
     for t in shrink_tree(c["tree"]):
         yield dict(c, tree=t)
     if c["slashes"]:
@@ -371,6 +510,6 @@ Definition export_case (r : fd_result mtree) : list N := match r with
 def coq_cases(cases):
     """from_disk (both listing orders, filters all / empty), from_disk_iter, node_id, git_node_id, wf_fs, prune_empty and mt_id
     with H := Sha1.sha1 evaluated by vm_compute inside Coq vs the extracted driver, on small trees (extraction cross-check)"""
-    small = [c for c in cases if count_nodes(c["tree"]) <= 10 and coq_tree_bytes(c["tree"]) <= 400][:12]
+    small = [c for c in cases if not c.get("chain") and count_nodes(c["tree"]) <= 10 and coq_tree_bytes(c["tree"]) <= 400][:12]
     cases[:] = small
     return coq_from_disk(ID, [(c, requests(c)) for c in small])
